@@ -7,6 +7,7 @@ func init() {
 		"a Shutdown with an already-cancelled (or already-expired) context, or one that returned an error, establishes only the <= 1 bound and crash/hang freedom",
 		"every processor is registered at most once; the == 1 shutdown count of exporters behind the stock span processors is asserted only in programs without cancelled-context Shutdown calls (they are shut down from a goroutine then)",
 		"'nothing more is exported' is read per span/record: one whose End/Emit was issued after the provider was down must never reach a processor or exporter; a batch processor still draining earlier telemetry is not a violation",
+		"for the metric pipeline 'nothing more is exported' is read per Export call and for any returned Shutdown call (any context, any result): no Export call begins on the exporter of a PeriodicReader once a Shutdown call on the reader or on its provider has returned; an Export still running at that moment is not a violation",
 		"blocks-forever is decided by a 30 s per-case watchdog plus the driver's goroutine dump",
 	))
 }
